@@ -2,7 +2,8 @@
 """Regenerates /verif/MANIFEST.json from monitors/targets.json (single source of truth)."""
 import json, os, subprocess
 V = os.path.dirname(os.path.dirname(os.path.abspath(__file__)))
-targets = json.load(open(os.path.join(V, "monitors", "targets.json")))
+import glob
+targets = {os.path.basename(os.path.dirname(p)): json.load(open(p)) for p in sorted(glob.glob(os.path.join(V, "monitors", "C*", "target.json")))}
 props = [json.loads(l) for l in open(os.path.join(V, "properties.jsonl"))]
 hooks_commits = []
 hp = os.path.join(V, "hooks_commits.txt")
